@@ -1251,6 +1251,8 @@ class Gen(object):
             if part[2] == cur[2] or r.random() < 0.3:
                 part[2] = None
             op['fmt'] = part
+        if self.p.prop in ('C02', 'C04', 'C20') and r.random() < 0.08:
+            op['restore_val'] = False      # keep the raw codes, not the value (a rarely used keyword)
         return op
 
     def g_reset(self):
